@@ -97,7 +97,15 @@ func c04(c *Ctx) {
 	}
 	for k, name := range names {
 		ci := ctors[name]
-		if !cancelOpc[ci.Opcode] && k%12 != int(c.Seed)%12 {
+		vsib := false // vector-indexed memory operands (gathers, scatters): address registers of a different kind
+		for _, df := range ci.Doc {
+			for _, tn := range df[1:] {
+				if strings.HasPrefix(strings.ToUpper(tn), "VM") {
+					vsib = true
+				}
+			}
+		}
+		if !cancelOpc[ci.Opcode] && !vsib && k%6 != int(c.Seed)%6 && !c.Thorough() {
 			continue
 		}
 		coll := reg.NewCollection()
